@@ -16,7 +16,7 @@ import random
 
 from . import common
 
-MODULES = ["CoapVerif.Props.C06"]
+MODULES = ["CoapVerif.Props.C06", "CoapVerif.Props.C06Window"]
 GENERATED = ["Retransmit.lean"]
 REACTIONS = ["pig", "ack-resp-con", "ack-resp-non", "ack-only", "rst-resp", "resp-only", "pig-lost-then-pig", "none"]
 
@@ -333,6 +333,7 @@ def explore(ctx, art):
             if nbroken <= 10:
                 ctx.broken.append(("correspondence", "C06 model vs implementation", "%s: impl `%s` model `%s`" % (l, o, model[i])))
         if judge is not None and judge[i] != "ok":
+            ctx.count("judge-rejects/" + (judge[i].split()[1] if len(judge[i].split()) > 1 else "?"))
             nviol += 1
             if nviol <= 6:
                 ml = minimise(ctx, art, l)
